@@ -55,6 +55,25 @@ PROPS = {
         'uncovered': [],
         'design_ref': '§4 C03',
     },
+    'C04': {
+        'title': 'parser reads every well-formed RFC 8010 message as the RFC says',
+        'verus': _VALDEC + _STATE + _DRIVE + _ADRIVE + _READER + _AREADER
+                 + [r'^verif_machine::(m_run|pair_fold|lemma_str_of_view)$', r'^verif_spec::(aval|abs_vals|abs_map)$'],
+        'kani': ['tables::table_value_tag', 'tables::table_delimiter_tag', 'tables::table_tag_none_outside'] + _K_RD_FAST,
+        'kani_thorough': _K_RD_ALL,
+        'assumptions': [_A_STREAM, _A_BYTES, _A_UTF8, _A_LOG, _A_W8, _A_U16,
+                        'the oracle is the abstract machine of specs/verif_machine.rs (an operational reading of RFC 8010 §3.1.2-3.1.6 '
+                        'over tokens, legal tokens only); it is reviewed, not derived from a grammar-directed semantics',
+                        'A-string-ext / A-string-hash / A-string-ord: String is determined by its content and obeys vstd\'s hash and '
+                        'comparison key models; vstd\'s HashMap/BTreeMap/Vec models',
+                        'IppParser::new / AsyncIppParser::new (generic Into<Reader>) are trusted to start from ParserState::new()',
+                        'IppAttribute::new(name, value) keeps the value (AsRef<str> bound unsupported)',
+                        'attribute name text is the lossy decoding of the name octets (A-utf8); the attribute\'s own `name` field '
+                        '(as opposed to its map key) is not part of the abstraction'],
+        'uncovered': ['messages that are not well-formed (m_run = None): only rejection of out-of-range tag bytes, panic-freedom and exact '
+                      'consumption are proved for them (C02, C06), not what content is returned'],
+        'design_ref': '§4 C04',
+    },
     'C05': {
         'title': 'async parser == blocking parser',
         'verus': _READER + _AREADER + _DRIVE + _ADRIVE + _STATE,
